@@ -102,8 +102,8 @@ type historyEnv struct {
 	pause       map[string]int   // URL -> pause between servings in its fresh processes
 	sink        *httptest.Server // destination of CMAF-ingest sessions started through the REST API
 	sinkHits    atomic.Int64
-	sessionTime time.Duration
-	sessions    int
+	sessionNs   atomic.Int64
+	sessions    atomic.Int64
 	allSessions bool // thorough tier: an API session in front of every target
 }
 
@@ -536,7 +536,7 @@ func (env *historyEnv) serveReq(ls *lib.Livesim, u string) proj {
 // that answers HTTP requests produces the segments of the session.
 func (env *historyEnv) apiSession(ls *lib.Livesim, livesimURL string, nowMS, segMS int64) {
 	t0 := time.Now()
-	defer func() { env.sessionTime += time.Since(t0); env.sessions++ }()
+	defer func() { env.sessionNs.Add(int64(time.Since(t0))); env.sessions.Add(1) }()
 	body := fmt.Sprintf(`{"destRoot":%q,"destName":"c07","livesimURL":%q,"testNowMS":%d,"duration":%d}`, env.sink.URL, livesimURL, nowMS, 2*segMS/1000)
 	r := ls.Do("POST", "/api/cmaf-ingests", strings.NewReader(body), map[string]string{"Content-Type": "application/json"})
 	var cr struct {
@@ -865,7 +865,7 @@ func runHistories(c *lib.Ctx) (int, error) {
 		check("sequential", h, last)
 		c.Count("history:" + h.Target.Family + ":" + h.Kind)
 	}
-	c.Res.Notes = append(c.Res.Notes, fmt.Sprintf("%d REST-API ingest sessions, %.1fs", env.sessions, env.sessionTime.Seconds()))
+	c.Res.Notes = append(c.Res.Notes, fmt.Sprintf("%d REST-API ingest sessions in the sequential pass, %.1fs", env.sessions.Load(), time.Duration(env.sessionNs.Load()).Seconds()))
 	lap("sequential")
 	// concurrent: the same sequences from 8 goroutines on a second instance
 	long2, err := lib.NewLivesim(env.root, serverMod(env))
@@ -885,20 +885,15 @@ func runHistories(c *lib.Ctx) (int, error) {
 		go func() {
 			defer wg.Done()
 			for i := range next {
-				if hs[i].Kind == "api-session" {
-					continue // the REST API is not safe for concurrent use (finding c07-ingester-mgr-maps): sequential pass only
-				}
+				// REST-API sessions run concurrently too (the manager is guarded by a mutex since fix commit ee6ff88)
 				for _, u := range hs[i].Reqs {
-					got[i] = project(long2.Get(u))
+					got[i] = env.serveReq(long2, u)
 				}
 			}
 		}()
 	}
 	wg.Wait()
 	for i, h := range hs {
-		if h.Kind == "api-session" {
-			continue
-		}
 		check("8 goroutines", h, got[i])
 		n += len(h.Reqs)
 	}
